@@ -126,14 +126,19 @@ def build_coq(targets):
 
 
 def build_driver():
+    """ocamlopt of the extracted modules (coq/Extract/out/*.ml) + the hand-written driver."""
     with Lock("coq"):
         ex = os.path.join(COQ, "Extract")
+        outd = os.path.join(ex, "out")
         drv = os.path.join(ex, "driver")
-        srcs = [os.path.join(ex, f) for f in ("model.ml", "model.mli", "driver.ml")]
+        srcs = [os.path.join(outd, f) for f in sorted(os.listdir(outd)) if f.endswith((".ml", ".mli"))] if os.path.isdir(outd) else []
+        srcs.append(os.path.join(ex, "driver.ml"))
         if os.path.exists(drv) and all(os.path.getmtime(drv) >= os.path.getmtime(s) for s in srcs):
             return True, "driver up to date"
-        rc, out = sh("ocamlfind ocamlopt -O3 -inline 200 model.mli model.ml driver.ml -o driver",
-                     cwd=ex, timeout=900)
+        rc, order = sh("ocamlfind ocamldep -sort -I out out/*.mli out/*.ml", cwd=ex)
+        if rc != 0:
+            return False, order
+        rc, out = sh("ocamlfind ocamlopt -O3 -inline 200 -w -a -I out %s driver.ml -o driver" % order.strip(), cwd=ex, timeout=900)
         return rc == 0, out
 
 
@@ -305,6 +310,10 @@ class PropertyCheck:
     def canon_model(self, case, out, profile):
         return out
 
+    def agree(self, case, impl_out, model_out, profile):
+        """Leg K: does the implementation's output correspond to the model's?"""
+        return self.canon_impl(case, impl_out, profile) == self.canon_model(case, model_out, profile)
+
     def known_finding(self, case, impl_out, failure):
         """Return the `what` of a listed known finding that explains this failure, else None."""
         return None
@@ -350,8 +359,7 @@ def evaluate_one(chk, case_line, profiles):
     if chk.use_model:
         res["model"] = run_tool(driver_bin(), [case_line], wd, "one", shards=1)[0]
     res["oracle"] = {p: chk.oracle(c, res["impl"][p], p) for p in profiles}
-    res["agree"] = {p: (not chk.use_model) or chk.canon_impl(c, res["impl"][p], p) == chk.canon_model(c, res["model"], p)
-                    for p in profiles}
+    res["agree"] = {p: (not chk.use_model) or chk.agree(c, res["impl"][p], res["model"], p) for p in profiles}
     return res
 
 
@@ -468,7 +476,7 @@ def run_check(chk, tier, seed, replay=None):
             if fail:
                 o_fails.append((c, prof, out, fail))
             if model is not None:
-                if chk.canon_impl(c, out, prof) != chk.canon_model(c, model[i], prof):
+                if not chk.agree(c, out, model[i], prof):
                     k_diffs.append((c, prof, out, model[i]))
         if chk.nontrivial(c, impl["debug"][i]):
             nontriv.add(c.line)
